@@ -81,16 +81,25 @@ class Tracer:
         if self.log_fd is not None:
             _real['write'](self.log_fd, (json.dumps(ev) + '\n').encode())
 
-    def snapshot_now(self) -> None:
+    def snapshot_now(self, suffix: str = '') -> None:
         """Copy the directory tree as it is at this instant: what a process
         killed right now would leave behind (everything written so far is in
-        the kernel; nothing user-space-buffered is)."""
+        the kernel; nothing user-space-buffered is).  Taken before every
+        mutation (name k) and, with suffix 'p', immediately after a rename or
+        link has been executed (name kp): a file published while part of its
+        content is still in a user-space buffer is seen as it is on disk at
+        that instant, before the application gets to flush or close it."""
         was, self.enabled = self.enabled, False
         try:
-            shutil.copytree(self.root, os.path.join(self.snap_root, str(self.count)),
+            shutil.copytree(self.root,
+                            os.path.join(self.snap_root, str(self.count) + suffix),
                             symlinks=True)
         finally:
             self.enabled = was
+
+    def _after_publish(self) -> None:
+        if self.enabled and self.snap_root is not None:
+            self.snapshot_now('p')
 
     def _read(self, p: str):
         try:
@@ -111,6 +120,9 @@ class Tracer:
                 data = tr._read(src) if os.path.isfile(src) else None
                 tr._before(('rename', os.fspath(src), os.fspath(dst),
                             data.hex() if data is not None else None))
+                ret = _real['rename'](src, dst, *a, **k)
+                tr._after_publish()
+                return ret
             return _real['rename'](src, dst, *a, **k)
 
         def remove(p, *a, **k):
@@ -138,6 +150,9 @@ class Tracer:
                 data = tr._read(src)
                 tr._before(('link', os.fspath(src), os.fspath(dst),
                             data.hex() if data is not None else None))
+                ret = _real['link'](src, dst, *a, **k)
+                tr._after_publish()
+                return ret
             return _real['link'](src, dst, *a, **k)
 
         def utime(p, *a, **k):
@@ -812,10 +827,14 @@ def crash_experiment(args: dict) -> dict:
                 if not os.path.isdir(snap):
                     res['crashes'].append({'k': k, 'missing': True})
                     continue
-                ent = _recover_entry(snap, layout, k)
-                # paths inside the snapshot -> the names of the original run
-                ent['locks'] = [p for p in ent['locks']]
-                res['crashes'].append(ent)
+                res['crashes'].append(_recover_entry(snap, layout, k))
+                post = snap + 'p'
+                if os.path.isdir(post):
+                    # the instant right after the k-th operation (a rename or
+                    # link) was executed, before anything else could happen
+                    ent = _recover_entry(post, layout, k)
+                    ent['post'] = True
+                    res['crashes'].append(ent)
                 continue
             base = tempfile.mkdtemp(prefix='pvkill-')
             try:
@@ -896,15 +915,15 @@ def crash_campaign(jobs: list[dict], pick_ks, pick_kills=None, workers: int = 12
                 for c in kr['crashes']:
                     if c.get('missing'):
                         continue
-                    c['acked'] = acked_at(tgt['ref'], c['k'])
-                    c['locks'] = [re.sub(r'^.*?/pvsnap-[^/]+/\d+', '/B', p) for p in c['locks']]
+                    c['acked'] = acked_at(tgt['ref'], c['k'] - 1 if c.get('post') else c['k'])
+                    c['locks'] = [re.sub(r'^.*?/pvsnap-[^/]+/\d+p?', '/B', p) for p in c['locks']]
                     tgt['crashes'].append(c)
             else:
                 for c in kr['crashes']:
                     c['acked'] = len(c['acks'])
                     tgt['kills'].append(c)
         for r in refs:
-            r['crashes'].sort(key=lambda c: c['k'])
+            r['crashes'].sort(key=lambda c: (c['k'], not c.get('post')))
             r['kills'].sort(key=lambda c: c['k'])
         return refs
     finally:
